@@ -96,6 +96,21 @@ class Facts:
                 raise AnalysisError("no entry %s for configuration %s" % (label, config.name))
         return self._traces[k]
 
+    def init_trace(self, config: Config) -> Ev:
+        w = self.world(config)
+        if self.ctx is not None:
+            for f in w.eng.functions_seen:
+                self.ctx.saw_fn(f)
+        w.init_trace.a.setdefault("entry", "MAB.__init__")
+        w.init_trace.a.setdefault("config", config.name)
+        return w.init_trace
+
+    def focus(self, config: Config, root: Ev):
+        """Make the engine's heap the one at the end of this run (object lookups for its events)."""
+        w = self.world(config)
+        w.eng.heap = root.a["heap"]
+        return w
+
     def entry_labels(self, config: Config) -> List[str]:
         return [lab for lab, _, _ in self.world(config).standard_entries()]
 
